@@ -16,7 +16,7 @@
  */
 extern const MPT_STRUCT(named_traits) *mpt_rawdata_type_traits(void)
 {
-	const MPT_STRUCT(named_traits) *traits = 0;
+	static const MPT_STRUCT(named_traits) *traits = 0;
 	if (!traits) {
 		traits = mpt_type_interface_add("mpt.rawdata");
 	}
